@@ -2,7 +2,7 @@
    Statements only. Models: Base/Words.v (Fortran record framing), Model/Uamiv.v (UAM-IV layout,
    spec codec `enc`/`dec`, and the library's stride-based Memmap reader model `mm_read` built on the
    definitions translated from the source into Gen/Camx.v). *)
-From PNC Require Import Base.Util Base.Words Gen.Camx Model.Uamiv Proofs.WordsProofs Proofs.UamivProofs.
+From PNC Require Import Base.Util Base.Words Gen.Camx Model.Uamiv Model.CamxMet Proofs.WordsProofs Proofs.UamivProofs Proofs.CamxMetProofs.
 From Coq Require Import String.
 Import Coq.Lists.List. Import ListNotations.
 Local Open Scope Z_scope.
@@ -49,6 +49,21 @@ Theorem C09_layer_record_layout : forall nx ny,
   uw_buf (nx * ny) = 4 * um_spc_1_lay_block_size nx ny - 8.
 Proof. exact lay_layout. Qed.
 Print Assumptions C09_layer_record_layout.
+
+(* Meteorological and boundary writers: every pad expression in temperature/one3d/height_pressure/wind/
+   lateral_boundary Write.py (translated from the source) is the Fortran marker of the record the format
+   prescribes, for all grid sizes — so leading and trailing markers agree with the payload written. *)
+Theorem C09_met_writer_pads :
+  (forall nr nc t d data, Z.of_nat (length data) = nr * nc -> tw_nelem nr nc = marker (met_rec t d data)) /\
+  (forall n t d data, Z.of_nat (length data) = n -> ow_buf n = marker (met_rec t d data)) /\
+  (forall n t d data, Z.of_nat (length data) = n -> hw_buf n = marker (met_rec t d data)) /\
+  (forall t d l, ww_buf_hdr = marker (wind_hdr_rec t d l)) /\
+  (forall n data, Z.of_nat (length data) = n -> ww_buf_data n = marker data) /\
+  (forall nb ie cells, Z.of_nat (length cells) = 4 * nb -> lw_buf_edge nb = marker (lb_edge_rec ie nb cells)) /\
+  (forall n name ie data, length name = 10%nat -> Z.of_nat (length data) = n ->
+                          lw_buf_data n = marker (lb_data_rec name ie data)).
+Proof. exact met_pads. Qed.
+Print Assumptions C09_met_writer_pads.
 
 (* Non-vacuity: a concrete well-formed two-step, two-species, two-layer file *)
 Definition C09_example : uamiv :=
